@@ -36,7 +36,7 @@ func isRangeIndex(v ssa.Value) bool {
 }
 
 func checkC16(c *Ctx) {
-	c.explainf("C16 decides: the three places that marshal arguments for a compiled function (run-time preparation, compile-time generation, apply/map) decide laziness with the same predicate IsLazyCallArg(index), build the wrapper only on its true branch (source wrapper on the source routes, value wrapper on apply/map) and evaluate/push every other position exactly once; Go builtins never receive a wrapper; the laziness flags are written only where formals are declared, from the # sigil; positions in a variadic tail are never lazy; forcing returns the memo when forced and otherwise stores value and forced flag on every success path; the wrapper captures scope stack and current function and forcing installs exactly those inside a capture/restore bracket; substitute cannot reach force. It does not decide effect counts or order for concrete programs.")
+	c.explainf("C16 decides: the three places that marshal arguments for a compiled function (run-time preparation, compile-time generation, apply/map) decide laziness with the same predicate IsLazyCallArg(index), build the wrapper only on its true branch (source wrapper on the source routes, value wrapper on apply/map) and evaluate/push every other position exactly once; Go builtins never receive a wrapper; the laziness flags are written only where formals are declared, from the # sigil; positions in a variadic tail are never lazy; forcing returns the memo when forced and otherwise stores value and forced flag on every success path; the wrapper captures scope stack and current function and forcing installs exactly those inside a capture/restore bracket; substitute cannot reach force. An argument of a compiled function passes through RValue in the caller, as does a forced value (C16-DOT); with named arguments laziness is asked for the parameter the label names (C16-NAMED); every routine that compiles a named function body makes the function known to the generator first and the tail path prepares its arguments for the function being compiled (C16-REG, C16-SELFARGS). It does not decide effect counts or order for concrete programs.")
 	c.checkArgsReadAtCall("C16-DOT")
 	c.checkNamedLaziness("C16-NAMED")
 	c.checkTailArgsForSelf("C16-SELFARGS")
